@@ -100,12 +100,14 @@ def value_labels(m: Message, v: Any) -> List[str]:
 
 
 def strategy(tier: str) -> Any:
-    return cases.sv_cases(S.Features(), nrand=2, config=st.fixed_dictionaries({"cc_opt": st.sampled_from(CONFIGS)}))
+    return cases.sv_cases(S.Features(), nrand=2, config=st.fixed_dictionaries({"cc_opt": st.sampled_from(CONFIGS), "build": cexec.build_variation(), "single_tu": st.booleans()}))
 
 
 def run_case(case: cases.SVCase, stats: Stats) -> None:
     cc, opt = case.config.get("cc_opt", ("gcc", "-O0"))
-    cfg = cexec.CConfig(cc=cc, opt=opt)
+    cfg = cexec.apply_variation(cexec.CConfig(cc=cc, opt=opt, single_tu=case.config.get("single_tu", False)), case.config.get("build", {}))
+    if cfg.pre_includes or cfg.extra or cfg.lib_std:
+        stats.count("cfg:build_variation")
     with gen.Compiled(case.unit, case.style) as cu:
         try:
             cdir = cu.render_all("c")
